@@ -160,7 +160,7 @@ def main():
             "kind_free_text": "Lean 4 theorems over executable models (lean/MythVerif), tied to /repo by translators (translate/) and by differential / trace correspondence harnesses (harness/) compiled from /repo's working tree on every run",
         }],
         "checks": checks,
-        "notes": "Every check: translate -> lake build + #print axioms audit -> build implementation from /repo working tree with -DMYTH_VERIF -> correspondence + property oracle -> violation search.  See DESIGN.md.",
+        "notes": "Every check: translate (constants, asm templates, wrapper table, and the statement skeletons of every modelled C function: Generated/*.lean) -> lake build + #print axioms audit of every property theorem and of the source-shape theorem Shape/<id>.lean (re-extracted function text = the text the model transcribes) -> build implementation from /repo working tree with -DMYTH_VERIF -> correspondence + property oracle -> violation search; a broken obligation or correspondence without a concrete failing input is reported as VIOLATION ... no-failing-input-found.  See DESIGN.md (section 9 = as built).",
         "not_applicable": [{"property_id": p, "reason": NA_REASON} for p in ALL if p not in CLAIMED],
     }
     with open(os.path.join(V, "MANIFEST.json"), "w") as f:
